@@ -268,7 +268,7 @@ const GOOD: [&str; 6] = ["upgrade", "websocket", "13", "penguin-v7", "dGhlIHNhbX
 
 /// variant of header i: 0 exact, 1 absent, 2 upper-case value, 3 near-miss, 4 duplicate first bad,
 /// 5 duplicate first good, 6 empty, 7 mixed-case name, 8 value with surrounding space,
-/// 9 leading zero, 10 leading plus, 11 trailing ".0"
+/// 9 leading zero, 10 leading plus, 11 trailing ".0", 12 a trailing octet beyond ASCII
 fn header_variant(i: usize, var: u64, psk: &[u8], out: &mut Vec<(Vec<u8>, Vec<u8>)>) {
     let name = NAMES[i].as_bytes().to_vec();
     let good: Vec<u8> = if i == 5 { psk.to_vec() } else { GOOD[i].as_bytes().to_vec() };
@@ -315,9 +315,16 @@ fn header_variant(i: usize, var: u64, psk: &[u8], out: &mut Vec<(Vec<u8>, Vec<u8
             v.extend(&good);
             out.push((name, v));
         }
-        _ => {
+        11 => {
             let mut v = good.clone();
             v.extend(b".0");
+            out.push((name, v));
+        }
+        // a value with an octet beyond ASCII (obs-text is legal in a header value): for the key, a valid upgrade whose accept
+        // hash must still be the hash of the octets sent; for the other headers, not the expected value
+        _ => {
+            let mut v = good.clone();
+            v.push(0xe9);
             out.push((name, v));
         }
     }
@@ -357,7 +364,7 @@ pub fn generate(a: &Args, out: &mut Out) {
                     for (mi, m) in methods.iter().enumerate() {
                         for (pi, p) in paths.iter().enumerate() {
                             for hi in 0..7usize {
-                                for var in 0..12u64 {
+                                for var in 0..13u64 {
                                     if hi == 6 && var > 0 {
                                         continue;
                                     }
@@ -383,7 +390,7 @@ pub fn generate(a: &Args, out: &mut Out) {
         let presented = r.pick(&[&b"s3cret"[..], b"s3cre", b"S3CRET", b"s3cret ", b"", b"s3cretx"]);
         let mut hs = Vec::new();
         for i in 0..6 {
-            let var = if r.chance(3, 5) { 0 } else { r.below(12) };
+            let var = if r.chance(3, 5) { 0 } else { r.below(13) };
             header_variant(i, var, presented, &mut hs);
         }
         if r.chance(1, 4) {
